@@ -26,6 +26,14 @@ def load_events(paths):
     return evs
 
 
+def pack_ckpt_call(e, base):
+    """ckpt_call event (Schedule.tla / ScheduleOps.tla): integers and booleans only."""
+    base.update(periodic=bool(e["periodic"]), force=bool(e["force"]), on_it=bool(e["on_it"]),
+                cur=int(e["cur"]), last0=int(e["last0"]), last1=int(e["last1"]), interval=int(e["interval"]),
+                near=bool(e["near"]), wrote=bool(e["wrote"]))
+    return base
+
+
 class Ranker:
     def __init__(self, values):
         vals = sorted({v for v in values if not (isinstance(v, float) and math.isnan(v))})
@@ -74,6 +82,7 @@ def pack_standard(evs):
     st_base = {}      # proc -> sampling time restored at the start of that process
     last_ckpt_digest = None
     last_ckpt_mid = False
+    last_ckpt_sched = None
     last_done = None
     for e in evs:
         ev = e["ev"]
@@ -178,6 +187,8 @@ def pack_standard(evs):
             if ev == "ckpt":
                 last_ckpt_digest = e["digest"]
                 last_ckpt_mid = bool(e.get("mid", False))
+                last_ckpt_sched = e.get("sched")
+                base["sched_ok"] = True
                 base["digest_ok"] = True
                 base["digest_diff"] = ""
                 base["mid"] = last_ckpt_mid
@@ -192,6 +203,8 @@ def pack_standard(evs):
                     base["digest_ok"] = not diff
                     base["digest_diff"] = ",".join(diff)
                 base["from_mid_ckpt"] = bool(last_ckpt_mid)
+                # the restored schedule is the pickled one (only judged when the latest file was restored)
+                base["sched_ok"] = bool(not base["digest_ok"] or e.get("sched") == last_ckpt_sched)
         elif ev in ("done", "done_again"):
             facts = ["ascending", "count_ok", "logZ_ok", "logZ_err_ok", "weights_ok", "vols_ok",
                      "logL_model_ok", "logP_model_ok", "in_bounds_ok", "birth_ok", "dict_ok",
@@ -227,6 +240,8 @@ def pack_standard(evs):
                         prefix_ok=bool(e["prefix_ok"]), n_proposed=int(e["n_proposed"]))
         elif ev == "ll_outside":
             base["n"] = int(e["n"])
+        elif ev == "ckpt_call":
+            pack_ckpt_call(e, base)
         elif ev == "kill":
             pass
         elif ev == "exception":
